@@ -74,6 +74,9 @@ func runC08(c *Ctx) {
 	if c.T.Bool(1, 4) {
 		maxClient = 20000
 	}
+	if c.T.Bool(1, 10) {
+		maxClient = 65535 // several of these in one transport message exceed 128 KiB
+	}
 	d := buildStreamPlan(c, tw, p, 1+c.T.Choose(6), c.T.Choose(4), maxClient, 6000, false)
 	if c.T.Bool(1, 4) {
 		p.Pkts, _ = mutateHistory(c, tw, p, p.Pkts)
@@ -205,6 +208,17 @@ func runC08(c *Ctx) {
 	default:
 		// everything in one message
 		sp = segPlan{"all-in-one", [][2]int{{0, tot}}}
+	}
+	if c.T.Bool(1, 5) && len(sp.segs) > 1 {
+		// the client falls silent for a while (31-150 s in total) before one or two of its
+		// transport messages, possibly in the middle of a packet
+		for k := 0; k < 1+c.T.Choose(2); k++ {
+			if p.QuietBefore == nil {
+				p.QuietBefore = map[int]time.Duration{}
+			}
+			p.QuietBefore[1+c.T.Choose(len(sp.segs)-1)] = time.Duration(31+c.T.Choose(45)) * time.Second
+		}
+		sp.kind += " +quiet-periods"
 	}
 	p.Segs = sp.segs
 	if textFramed != "" {
